@@ -13,10 +13,11 @@ PROP = {
         "Multi.C08.trivial_no_write",
         "Multi.Ledger.run_spec",
     ],
-    "harnesses": [lc.ledger_harness("ledger", ["hist", "trivial"], 16000, 160000, ["hist20", "trivial20"])],
+    "harnesses": [lc.ledger_harness("ledger", ["hist", "trivial", "semitriv"], 16000, 160000, ["hist20", "trivial20", "semitriv20"])],
     "hooks": ["oracle"],
     "trusted_base": TRUSTED_COMMON + lc.TRUSTED_LEDGER,
-    "assumptions": ["element types: an instrumented class type with non-trivial special members, and int (trivially default-constructible and destructible)",
+    "assumptions": ["element types: an instrumented class type with non-trivial special members; int (trivially default-constructible and destructible); a class type with logged, non-trivial "
+                    "default/copy construction and a TRIVIAL destructor (the only mixed combination that exists); the instrumented type with force_element_trivial_destruction (destruction declared skippable)",
                     "zero-based extents (index bases are C19's subject); D = 1..3; array<T,0> and the CUDA/thrust code paths are not exercised",
                     "operations whose preconditions the caller violates are not part of a history (reshape to another element count, slice outside the extension, swap of unequal non-propagating allocators)",
                     "serialisation-load is `clear(); reextent(extensions)` followed by element assignment (array.hpp:1174-1181): covered as the composition of those operations, the archive itself is C17's subject"],
